@@ -5,7 +5,7 @@ use std::cell::RefCell;
 use std::panic::{self, AssertUnwindSafe};
 
 thread_local! {
-    static LAST_PANIC: RefCell<Option<String>> = const { RefCell::new(None) };
+    static PANICS: RefCell<Vec<String>> = const { RefCell::new(Vec::new()) };
 }
 
 /// Installs a quiet panic hook that stores the message (with location) for the current thread.
@@ -22,22 +22,42 @@ pub fn install_panic_hook() {
             .location()
             .map(|l| format!("{}:{}", l.file(), l.line()))
             .unwrap_or_default();
-        LAST_PANIC.with(|p| *p.borrow_mut() = Some(format!("{msg} @ {loc}")));
+        PANICS.with(|p| {
+            if let Ok(mut p) = p.try_borrow_mut() {
+                if p.len() < 16 {
+                    p.push(format!("{msg} @ {loc}"));
+                }
+            }
+        });
         if std::env::var_os("VERIF_SHOW_PANICS").is_some() {
             eprintln!("[panic] {msg} @ {loc}");
         }
     }));
 }
 
-pub fn take_last_panic() -> Option<String> {
-    LAST_PANIC.with(|p| p.borrow_mut().take())
+/// All panic messages recorded on this thread since the last call (first one first).
+pub fn take_panics() -> Vec<String> {
+    PANICS.with(|p| std::mem::take(&mut *p.borrow_mut()))
+}
+
+fn last_panic() -> Option<String> {
+    PANICS.with(|p| p.borrow().last().cloned())
 }
 
 /// Runs `f` under catch_unwind on the current thread.
 pub fn guarded<R>(f: impl FnOnce() -> R) -> Result<R, String> {
     match panic::catch_unwind(AssertUnwindSafe(f)) {
         Ok(r) => Ok(r),
-        Err(_) => Err(take_last_panic().unwrap_or_else(|| "<panic>".into())),
+        Err(_) => {
+            let m = last_panic().unwrap_or_else(|| "<panic>".into());
+            PANICS.with(|p| {
+                let mut p = p.borrow_mut();
+                if p.len() >= 16 {
+                    p.clear();
+                }
+            });
+            Err(m)
+        }
     }
 }
 
